@@ -28,10 +28,11 @@ def main():
             props = args.pop(0).split(",")
         elif a == "--keep-name":
             name = args.pop(0)
-    src = "/tmp/mut/%s.out" % pid
+    base = os.environ.get("MUT_BASE", "/tmp/mut")
+    src = "%s/%s.out" % (base, pid)
     patch = os.path.join(src, "patch%s.diff" % k)
     demo = os.path.join(src, "demo%s.rs" % k)
-    wt = "/tmp/mut/%s" % pid
+    wt = "%s/%s" % (base, pid)
     meta = {"breaks_property": pid, "patch": os.path.basename(patch), "ran": []}
     sh("git checkout -q -- . && git clean -fdq", cwd=wt)
     rc, out = sh(["git", "apply", patch], cwd=wt)
